@@ -26,6 +26,7 @@ type oracles struct {
 	prevSnap  snap // the most recent snapshot (after the last event)
 
 	commitsSeen int
+	replaysSeen int
 	storeSeen   map[uint64]string // header store entries already certified (hash|proof digest)
 	cvSeen      string            // committing view already certified
 }
@@ -519,6 +520,15 @@ func (o *oracles) afterStep(before, after snap, a applied) {
 		for _, ce := range s.commits[o.commitsSeen:] {
 			o.checkCommit(ce)
 		}
+		// An accepted replay must have made that exact header the committed one; its certificate (everything the node
+		// holds for it, not only the replayed signatures) is then checked through the store and committing view above.
+		for _, ce := range s.replayAccepted[o.replaysSeen:] {
+			ch, ok := after.headers[ce.h]
+			if !ok || string(ch.Header.Hash) != ce.hash {
+				o.violate("C01", "replay-accepted-but-not-committed", fmt.Sprintf("replay of %s at height %d was accepted but the committed header store holds %v", h8([]byte(ce.hash)), ce.h, ok))
+			}
+		}
+		o.replaysSeen = len(s.replayAccepted)
 	}
 	o.commitsSeen = len(s.commits)
 
